@@ -174,6 +174,7 @@ func newUploader(b Backend, timeSource TimeSource) *uploader {
 func (u *uploader) CreateMultipartUpload(bucket, object string, meta map[string]string) (UploadID, error) {
 	u.mu.Lock()
 	defer u.mu.Unlock()
+	defer u.traceUploads("Initiate", bucket, object, "", 0, nil)
 
 	u.uploadID.Add(u.uploadID, add1)
 
@@ -350,6 +351,7 @@ func (u *uploader) ListMultipartUploads(bucket string, marker *UploadListMarker,
 func (u *uploader) AbortMultipartUpload(bucket, object string, id UploadID) error {
 	u.mu.Lock()
 	defer u.mu.Unlock()
+	defer u.traceUploads("Abort", bucket, object, string(id), 0, nil)
 	_, err := u.getUnlocked(bucket, object, id)
 	if err != nil {
 		return err
@@ -374,6 +376,7 @@ func (u *uploader) UploadPart(bucket, object string, id UploadID, partNumber int
 	}
 	u.mu.Lock()
 	defer u.mu.Unlock()
+	defer u.traceUploads("UploadPart", bucket, object, string(id), partNumber, nil)
 	mpu, err := u.getUnlocked(bucket, object, id)
 	if err != nil {
 		return "", err
@@ -404,6 +407,7 @@ func (u *uploader) UploadPart(bucket, object string, id UploadID, partNumber int
 func (u *uploader) CompleteMultipartUpload(bucket, object string, id UploadID, input *CompleteMultipartUploadRequest) (version VersionID, etag string, err error) {
 	u.mu.Lock()
 	defer u.mu.Unlock()
+	defer u.traceUploads("Complete", bucket, object, string(id), 0, input)
 
 	mpu, err := u.getUnlocked(bucket, object, id)
 	if err != nil {
